@@ -1,5 +1,9 @@
 """C03 - reported outcome is sound: success means nothing raised; failures never masked."""
+import abc
+import functools
 import itertools
+import json
+import unittest
 
 from hypothesis import strategies as st
 
@@ -17,54 +21,221 @@ RULE = ("Generated test programs as in C01 with emphasis on ordered pairs/triple
         "(before run() or during setUp); run against the extended recorder and a real testtools.TestResult. Oracle "
         "from the statement: success <=> the reference interpreter says nothing raised; exactly one exception => the "
         "outcome of the first isinstance-matching handler-table entry; any failure/error raised => a failing outcome "
-        "and wasSuccessful() False. Exhaustive grid of 9 behaviours x 5 stages in thorough. Non-trivial: >= 2 "
+        "and wasSuccessful() False. Exhaustive grid of 9 behaviours x 5 stages in thorough. "
+        "A mismatched expectThat / a set force_failure (instance or class attribute; in any stage, cleanups included) "
+        "counts as a failure raised after the cleanups: never a success, never downgraded by a skip / expected failure, "
+        "any failing outcome; a skip raised under @unittest.expectedFailure may be reported as a skip or "
+        "as an expected failure. Exhaustive grids in every tier: delayed failure x site x one other harmless "
+        "exception; one exception x one user handler (plain class, tuple of classes, ABC-registered class) x raising "
+        "stage x insertion time (before run(), setUp, test method, tearDown, last cleanup) x runner chosen by default / "
+        "runTest= / @run_test_with / a two-argument factory; two tests of one class with different handler tables; "
+        "skipTest() and fail() called with stock and project-own skipException / failureException; a plain "
+        "unittest.SkipTest under an unrelated skipException; subclasses of the xfail / unexpected-success signals; "
+        "@expectedFailure x body x other stage. Non-trivial: >= 2 "
         "exceptions of different classes, or a user handler consulted; distinct = distinct canonical program.")
 ASSUMPTIONS = [
     "which of several failures/errors is reported is not asserted",
     "user-mapped exception classes are only generated in single-exception programs; programs raising several things "
     "get at most a user handler for the skip class (which cannot claim a failure or an error)",
+    "the handler table that counts is the one in place when the run's outcome is reported: a handler the test inserts "
+    "in tearDown or in a cleanup, after the exception was caught, takes part (exception_handlers is documented as "
+    "'able to be modified at any time')",
+    "a handler's class may be anything isinstance() accepts: a class, a tuple of classes, an ABC with registered "
+    "subclasses",
+    "an exception raised by a test decorated with @unittest.expectedFailure that is not of the skip class (an error "
+    "included) counts as the expected failure, as in unittest",
+    "whether a plain unittest.SkipTest raised in a test whose skipException is an unrelated class is an error or a skip "
+    "is read off the tree under test (a run that raises nothing else); the rest of the statement is then applied to "
+    "that reading",
+    "the delayed failure of expectThat / force_failure counts as a failure some stage raised (documented: the test 'will "
+    "be marked as failing after the test has finished'), so a skip or an expected failure raised elsewhere does not "
+    "downgrade it; which failing outcome reports it, and whether it is still raised when setUp did not complete, is not "
+    "asserted; a skip-decorated test with force_failure set may be a skip or any failing outcome",
+    "skipException / failureException are set on the class before the test is constructed (rebinding them on the "
+    "instance or after construction is not generated: the handler table is built in __init__ - DESIGN 11.2 / audit B.2); "
+    "force_failure is only ever set to truthy values (a test that resets it to False after a mismatch is not generated)",
 ]
+
+# ----------------------------------------------------------------------------- extended programs (built here)
+# A program that carries a key "x" is built by build_ext below instead of by vp.programs.build_case alone.  It may use
+#   handlers_when "tearDown" / "cleanup" (the user inserts the handlers first thing in tearDown / in the cleanup that
+#       runs last, that is after the exception was caught),
+#   handler classes "TupleAK" (a tuple of classes) and "VirtualA" (an ABC with CustomA registered),
+#   x.via "legacy" / "legacy_decorator" (a RunTest factory of the documented form factory(case, handlers), which knows
+#       no last_resort=), besides None / "ctor" / "decorator",
+#   x.cls_force (force_failure set as a class attribute), x.own_fail (failureException is a class unrelated to
+#       AssertionError), x.mate (handlers of a second instance of the same class that runs first).
+class VirtualA(abc.ABC):
+    """A handler class that claims CustomA by registration, not by inheritance."""
+
+
+VirtualA.register(P.CustomA)
+
+
+class OwnFail(Exception):
+    """A project's own failure signal, unrelated to AssertionError."""
+
+
+EXT_CLASSES = {"CustomA": P.CustomA, "CustomFail": P.CustomFail, "AssertionError": AssertionError, "Exception": Exception,
+               "SkipTest": unittest.SkipTest, "TupleAK": (P.CustomA, KeyError), "VirtualA": VirtualA}
+FORCE_VALUES = {"True": True, "1": 1, "yes": "yes"}
+
+
+class Model3(P.Model):
+    def isinstance_(self, kind, cls):
+        if cls == "TupleAK":
+            return kind in ("customA", "error_key")
+        if cls == "VirtualA":
+            return kind == "customA"
+        return super().isinstance_(kind, cls)
+
+
+def model_of(prog):
+    x = prog.get("x")
+    if x and x.get("cls_force"):
+        prog = dict(prog, force_outside=True)
+    return Model3(prog).run()
+
+
+def build_ext(prog, live):
+    import testtools
+    from testtools.runtest import RunTest
+    from vp.results import Ext
+    x = prog["x"]
+    via, when = x.get("via"), prog.get("handlers_when", "init")
+    base = P.build_case(dict(prog, handlers=[], handlers_when="init", force_outside=False,
+                             runner_via="decorator" if via == "decorator" else None), live)
+    Base = type(base)
+
+    def install(case, handlers):
+        for h in handlers:
+            def uh(c, result, err, h=h):
+                getattr(result, h["to"])(c, details=c.getDetails())
+            case.exception_handlers.insert(h["pos"], (EXT_CLASSES[h["cls"]], uh))
+
+    class Extended(Base):
+        def setUp(self):
+            if self.__dict__.get("_c03_main"):
+                if when == "setUp":
+                    install(self, prog["handlers"])
+                elif when == "cleanup":
+                    self.addCleanup(install, self, prog["handlers"])      # registered first: runs after every other cleanup
+            return Base.setUp(self)
+
+        @functools.wraps(Base.test_program)
+        def test_program(self):
+            if when == "body" and self.__dict__.get("_c03_main"):
+                install(self, prog["handlers"])
+            return Base.test_program(self)
+
+        def tearDown(self):
+            if when == "tearDown" and self.__dict__.get("_c03_main"):
+                install(self, prog["handlers"])
+            return Base.tearDown(self)
+
+    if x.get("cls_force"):
+        Extended.force_failure = FORCE_VALUES[x["cls_force"]]
+    if x.get("own_fail"):
+        Extended.failureException = OwnFail
+
+    def legacy(case, handlers=None):
+        return RunTest(case, handlers)
+    if via == "legacy_decorator":
+        Extended.test_program = testtools.run_test_with(legacy)(Extended.test_program)
+
+    def make():
+        if via == "ctor":
+            return Extended("test_program", runTest=RunTest)
+        if via == "legacy":
+            return Extended("test_program", runTest=legacy)
+        return Extended("test_program")
+    if x.get("mate") is not None:
+        # another test of the same class, with its own handler table, runs first
+        mate = make()
+        install(mate, x["mate"])
+        mate.run(Ext(log=[]))
+    case = make()
+    case._c03_main = True
+    if when == "init":
+        install(case, prog["handlers"])
+    if prog.get("force_outside"):
+        case.force_failure = True
+    return case
+
+
+# ----------------------------------------------------------------------------- generation
+@st.composite
+def custom_programs(draw):
+    """Single-exception programs with user handlers; the runner is chosen in every documented way, and now and then the
+    handlers are inserted late / for a class that is a tuple or an ABC."""
+    prog = dict(draw(P.programs(custom=True, cleanup_depth=1, p_raise=0)))
+    if not prog["handlers"] or prog["decor"] != "none":
+        return prog
+    prog["handlers"] = [dict(h) for h in prog["handlers"]]
+    via = draw(st.sampled_from([None, None, "ctor", "decorator", "decorator", "legacy", "legacy_decorator"]))
+    ext = via in ("legacy", "legacy_decorator")
+    raise_in_setup = any(a["a"] == "raise" for a in prog["setUp_pre"] + prog["setUp_post"])
+    if draw(st.integers(0, 3)) == 0:
+        prog["handlers_when"] = draw(st.sampled_from(["cleanup"] + ([] if raise_in_setup else ["tearDown"])))
+        ext = True
+    if draw(st.integers(0, 3)) == 0:
+        for h in prog["handlers"]:
+            if h["cls"] == "CustomA":
+                h["cls"] = draw(st.sampled_from(["TupleAK", "VirtualA"]))
+                ext = True
+    if ext:
+        prog["x"] = {"via": via}
+    else:
+        prog["runner_via"] = via
+    return prog
+
 
 PROG = st.one_of(P.programs(multi=True, expect=True, force=True, cleanup_depth=2, p_raise=6, extras=True, skip_handlers=True,
                             texts=True, rets=True, upcall=True, decor=True),
-                 P.programs(custom=True, cleanup_depth=1, p_raise=0))
+                 custom_programs())
 CASE = st.fixed_dictionaries({"prog": PROG, "flavour": st.sampled_from(["ext", "real", "ext"])})
 FAILING = {"addFailure", "addError", "addUnexpectedSuccess"}
+SERIOUS = ("failure", "error", "nonexc")
 
 
-def run_case(spec):
-    prog, flavour = spec["prog"], spec["flavour"]
+def judge(model, prog, out, flavour, obs):
+    """Violations of the statement by the outcome ``out``, given one reference interpretation of the program."""
     vs = []
-    model = P.Model(prog).run()
     admissible, propagates = model.admissible()
-    obs = R.run_program(prog, flavour)
-    outs = [e[0] for e in obs["events"] if e[0] in OUTCOMES]
     kinds = [r["kind"] for r in model.raised]
-    classes = [P.klass(k) for k in kinds]
-    if len(outs) != 1:
-        vs.append(V("one-outcome", "count", "%d outcomes %r for raised %r" % (len(outs), outs, kinds)))
-        return Case(vs, True, ["no-single-outcome"])
-    out = outs[0]
     if model.skipped_by_decorator:
-        if out != "addSkip":
+        # the statement is silent on a skip-decorated test whose force_failure is set: anything but a success
+        if out != "addSkip" and not (prog.get("force_outside") and out in FAILING):
             vs.append(V("single-mapping", "decorator-skip->" + out, "a skip-decorated test was reported as %s" % out))
-        return Case(vs, False, ["decorator-skip"])
-    # (1) success <=> nothing raised
-    if (out == "addSuccess") != (not model.raised) and not prog["handlers"]:
+        return vs
+    # the delayed failure of expectThat / force_failure ("forced", raised after the cleanups of a test whose setUp
+    # completed) is a failure like any other: the test "will be marked as failing after the test has finished"
+    real = [r for r in model.raised if r["kind"] != "forced"]
+    bad = [r for r in model.raised if P.klass(r["kind"]) in SERIOUS]
+    delayed = bool(model.force)
+    # (1) success <=> nothing raised, no mismatch, force_failure unset
+    if (out == "addSuccess") != (not model.raised and not delayed) and not prog["handlers"]:
         vs.append(V("success-iff-clean", "false-success" if out == "addSuccess" else "false-failure",
-                    "outcome %s although the stages raised %r (stages %r)" % (out, kinds, [r["stage"] for r in model.raised])))
+                    "outcome %s although the stages raised %r (stages %r)%s" % (
+                        out, kinds, [r["stage"] for r in model.raised], ", a delayed failure was due" if delayed else "")))
     # (2) single exception -> the mapped outcome
-    if len(model.raised) == 1 and not propagates:
+    if len(model.raised) == 1 and not delayed and not propagates:
         want = model.single_outcome(kinds[0])
         if out != want:
             vs.append(V("single-mapping", "%s->%s" % (kinds[0], out) + ("-userhandlers" if prog["handlers"] else ""),
                         "single %s raised in %s reported as %s, handler table %r says %s" % (
                             kinds[0], model.raised[0]["stage"], out, model.handler_table(), want)))
+    if delayed:
+        # which failing outcome reports a delayed failure is not in the statement; nor whether it is still raised when
+        # setUp did not complete (testtools does not; then only what setUp and the cleanups raised is left)
+        admissible = set(FAILING)
+        if not bad:
+            admissible |= {model.single_outcome(r["kind"]) for r in real}
     # (3) failures are never masked (user handlers, if any, are only for the skip class here)
     only_skip_handlers = all(h["cls"] == "SkipTest" for h in prog["handlers"])
-    if any(c in ("failure", "error", "nonexc") for c in classes) and (only_skip_handlers if len(kinds) > 1 else not prog["handlers"]):
+    if bad and (only_skip_handlers if len(kinds) > 1 else not prog["handlers"]):
         if out not in FAILING:
-            first_bad = next(r for r in model.raised if P.klass(r["kind"]) in ("failure", "error", "nonexc"))
+            first_bad = bad[0]
             vs.append(V("masked", "%s-reported-as-%s" % (P.klass(first_bad["kind"]), out),
                         "a %s was raised in %s but the outcome is %s (raised, in order: %r)" % (
                             first_bad["kind"], first_bad["stage"], out, [(r["kind"], r["stage"]) for r in model.raised])))
@@ -75,6 +246,59 @@ def run_case(spec):
     if flavour == "real" and not prog["handlers"]:
         if obs["result"].wasSuccessful() != (out not in FAILING):
             vs.append(V("verdict", "wasSuccessful-vs-outcome", "wasSuccessful() %r after %s" % (obs["result"].wasSuccessful(), out)))
+    return vs
+
+
+_RAW_SKIP_IS_SKIP = {}
+
+
+def raw_skip_is_skip():
+    """Does the tree under test treat a plain unittest.SkipTest, raised in a test whose skipException is an unrelated
+    class, as a skip (True) or as an ordinary error (False, testtools today)?  Observed once per process on a test that
+    does nothing else."""
+    if "v" not in _RAW_SKIP_IS_SKIP:
+        probe = _blank(custom_skip=True, body=[{"a": "raise", "i": 1, "kind": "raw_skip_error"}])
+        outs = R.outcome_names(R.run_program(probe, "ext"))
+        _RAW_SKIP_IS_SKIP["v"] = outs == ["addSkip"]
+    return _RAW_SKIP_IS_SKIP["v"]
+
+
+def readings(prog):
+    """The reference interpretations the statement admits for a program (the first one is what testtools does today)."""
+    if "'raw_skip_error'" in repr(prog) and raw_skip_is_skip():
+        prog = json.loads(json.dumps(prog).replace('"raw_skip_error"', '"skip_sub"'))
+        prog["custom_skip"] = False         # (for the model: the raised class is a skip class of this test)
+    out = [model_of(prog)]
+    if prog["decor"] == "expectedFailure" and prog["body"] and prog["body"][-1]["a"] == "raise" \
+            and P.klass(prog["body"][-1]["kind"]) == "skip":
+        # a skip raised inside a test decorated with @unittest.expectedFailure: testtools turns it into an expected
+        # failure (DESIGN 11.2); read literally the statement asks for the skip (one exception, of the skip class),
+        # which is also what unittest does
+        out.append(model_of(dict(prog, decor="none")))
+    return out
+
+
+def run_case(spec):
+    prog, flavour = spec["prog"], spec["flavour"]
+    models = readings(prog)
+    model = models[0]
+    if prog.get("x") is not None:
+        live = P.Live()
+        obs = R.run_program(prog, flavour, case=build_ext(prog, live), live=live)
+    else:
+        obs = R.run_program(prog, flavour)
+    outs = [e[0] for e in obs["events"] if e[0] in OUTCOMES]
+    kinds = [r["kind"] for r in model.raised]
+    classes = [P.klass(k) for k in kinds]
+    if len(outs) != 1:
+        return Case([V("one-outcome", "count", "%d outcomes %r for raised %r" % (len(outs), outs, kinds))], True, ["no-single-outcome"])
+    out = outs[0]
+    vs = judge(model, prog, out, flavour, obs)
+    for other in models[1:]:
+        if vs and not judge(other, prog, out, flavour, obs):
+            vs = []
+    if model.skipped_by_decorator:
+        return Case(vs, False, ["decorator-skip"])
     nt = len(set(classes)) >= 2 or bool(prog["handlers"] and model.raised)
     return Case(vs, nt, ["flavour=" + flavour, "raises=%d" % min(len(kinds), 4), "userhandlers" if prog["handlers"] else "",
                          "out=" + out] + sorted({"class=" + c for c in classes}), {"raised": kinds, "outcome": out})
@@ -124,6 +348,147 @@ def _enum_pairs():
                     yield {"prog": prog, "flavour": "ext"}
 
 
+def _blank(**kw):
+    prog = {"decor": "none", "setUp_pre": [], "setUp_post": [], "body": [], "tearDown_pre": [], "tearDown_post": [],
+            "handlers": [], "handlers_when": "init", "cells": 0}
+    prog.update(kw)
+    return prog
+
+
+def _put(prog, ids, site, acts):
+    """Append actions to a stage; "cleanup" = a cleanup registered in setUp, "cleanup_nested" = a cleanup registered by a
+    cleanup, "cleanup_late" = a cleanup that runs after the other two."""
+    if site == "cleanup":
+        prog["setUp_pre"].append({"a": "cleanup", "i": next(ids), "args": False, "body": acts})
+    elif site == "cleanup_nested":
+        inner = {"a": "cleanup", "i": next(ids), "args": False, "body": acts}
+        prog["setUp_pre"].append({"a": "cleanup", "i": next(ids), "args": False, "body": [inner]})
+    elif site == "cleanup_late":
+        prog["setUp_pre"].insert(0, {"a": "cleanup", "i": next(ids), "args": False, "body": acts})
+    else:
+        prog[site].extend(acts)
+
+
+def _enum_delayed():
+    """A mismatched expectThat / a set force_failure in every stage (cleanups included) of a test in which nothing
+    else goes wrong, or in which one stage raises a skip / an expected failure."""
+    ids = itertools.count(1)
+    sites = ["setUp_post", "body", "tearDown_post", "cleanup", "cleanup_nested"]
+    whats = [("expect", None), ("force", "True"), ("force", "1"), ("force", "yes")]
+    others = [None] + [(k, s) for k in ("skip", "xfail") for s in ("setUp_post", "body", "tearDown_post", "cleanup", "cleanup_late")]
+    for what, value in whats:
+        for site in sites:
+            for other in others:
+                prog = _blank()
+                if what == "expect":
+                    act = {"a": "expect", "i": next(ids), "ok": False, "dnames": []}
+                else:
+                    act = {"a": "force", "i": next(ids), "value": value}
+                _put(prog, ids, site, [{"a": "log", "i": next(ids)}, act])
+                if other:
+                    _put(prog, ids, other[1], [{"a": "raise", "i": next(ids), "kind": other[0]}])
+                yield {"prog": prog, "flavour": "ext" if other else "real"}
+    # force_failure as a class attribute; failureException a class of the project's own
+    for value in ("True", "1"):
+        for other in (None, ("skip", "body"), ("skip", "cleanup"), ("xfail", "tearDown_post")):
+            prog = _blank(x={"cls_force": value})
+            if other:
+                _put(prog, ids, other[1], [{"a": "raise", "i": next(ids), "kind": other[0]}])
+            yield {"prog": prog, "flavour": "real" if other is None else "ext"}
+    for first, later in [(("fail", s), None) for s in ("setUp_post", "body", "tearDown_post", "cleanup")] + \
+            [(("fail", "body"), ("skip", "cleanup")), (("fail", "body"), ("skip", "tearDown_post")), (("fail", "cleanup"), ("skip", "cleanup_late")),
+             (("skip", "body"), None), (("error", "body"), None)]:
+        prog = _blank(x={"own_fail": True})
+        _put(prog, ids, first[1], [{"a": "raise", "i": next(ids), "kind": first[0]}])
+        if later:
+            _put(prog, ids, later[1], [{"a": "raise", "i": next(ids), "kind": later[0]}])
+        yield {"prog": prog, "flavour": "ext"}
+
+
+def _enum_handlers():
+    """One exception, one user handler: what is raised and which class the handler names x where it is raised x when the
+    handler is inserted (cleanups and tearDown included: after the exception was caught) x how the runner was chosen;
+    plus two tests of one class with different handler tables."""
+    ids = itertools.count(1)
+    pairs = [("customA", "CustomA", "addSkip", 0), ("customA", "TupleAK", "addFailure", 0), ("customA", "VirtualA", "addExpectedFailure", 1),
+             ("error_key", "TupleAK", "addSkip", 0), ("customFail", "AssertionError", "addSkip", 1), ("skip", "SkipTest", "addFailure", 0),
+             ("skip", "SkipTest", "addFailure", 5), ("error", "Exception", "addSkip", 0), ("error", "Exception", "addSkip", 5),
+             ("fail", "CustomFail", "addSkip", 0)]
+    for kind, cls, to, pos in pairs:
+        for stage in ("setUp_post", "body", "cleanup"):
+            for when in ("init", "setUp", "body", "tearDown", "cleanup"):
+                if stage == "setUp_post" and when in ("body", "tearDown"):
+                    continue                        # never reached
+                for via in (None, "ctor", "decorator", "legacy", "legacy_decorator"):
+                    prog = _blank(handlers=[{"cls": cls, "to": to, "pos": pos}], handlers_when=when, x={"via": via})
+                    _put(prog, ids, "body", [{"a": "log", "i": next(ids)}])
+                    if stage == "cleanup":
+                        prog["body"].append({"a": "cleanup", "i": next(ids), "args": False, "body": [{"a": "raise", "i": next(ids), "kind": kind}]})
+                    else:
+                        _put(prog, ids, stage, [{"a": "raise", "i": next(ids), "kind": kind}])
+                    yield {"prog": prog, "flavour": "ext"}
+    for kind in ("customA", "customFail", "skip"):
+        for mate in ([{"cls": "CustomA", "to": "addSkip", "pos": 0}, {"cls": "AssertionError", "to": "addSkip", "pos": 0},
+                      {"cls": "SkipTest", "to": "addFailure", "pos": 0}],):
+            for own in ([], [{"cls": "Exception", "to": "addExpectedFailure", "pos": 0}]):
+                prog = _blank(handlers=own, x={"mate": mate})
+                _put(prog, ids, "body", [{"a": "raise", "i": next(ids), "kind": kind}])
+                yield {"prog": prog, "flavour": "ext"}
+
+
+def _enum_api():
+    """skipTest() / fail() called (not imitated) with the stock and with a project's own skip / failure class; a plain
+    unittest.SkipTest in a test whose skipException is unrelated to it; @unittest.expectedFailure x what the body raises x
+    what another stage raises."""
+    ids = itertools.count(1)
+
+    def r(kind):
+        return [{"a": "raise", "i": next(ids), "kind": kind}]
+    sites = ("setUp_post", "body", "tearDown_post", "cleanup")
+    for custom_skip in (False, True):
+        for kind in ("skip_api", "fail_api"):
+            for site in sites:
+                prog = _blank(custom_skip=custom_skip)
+                _put(prog, ids, site, r(kind))
+                yield {"prog": prog, "flavour": "ext"}
+        for later, site in (("skip_api", "cleanup"), ("skip_api", "tearDown_post"), ("skip", "cleanup")):
+            prog = _blank(custom_skip=custom_skip)
+            _put(prog, ids, "body", r("fail_api"))
+            _put(prog, ids, site, r(later))
+            yield {"prog": prog, "flavour": "real"}
+    for site in sites:
+        prog = _blank(x={"own_fail": True})
+        _put(prog, ids, site, r("fail_api"))
+        yield {"prog": prog, "flavour": "ext"}
+    for site in sites:
+        for later in (None, ("skip", "cleanup_late"), ("skip_sub", "cleanup_late"), ("skip_api", "cleanup_late")):
+            prog = _blank(custom_skip=True)
+            _put(prog, ids, site, r("raw_skip_error"))
+            if later:
+                _put(prog, ids, later[1], r(later[0]))
+            yield {"prog": prog, "flavour": "ext"}
+    # subclasses of the expected-failure / unexpected-success signals: alone, and after a failure or an error
+    for kind in ("xfail_sub", "ux_sub"):
+        for site in sites:
+            prog = _blank()
+            _put(prog, ids, site, r(kind))
+            yield {"prog": prog, "flavour": "ext"}
+        for first in ("fail", "error"):
+            for site in ("tearDown_post", "cleanup"):
+                prog = _blank()
+                _put(prog, ids, "body", r(first))
+                _put(prog, ids, site, r(kind))
+                yield {"prog": prog, "flavour": "real"}
+    for body in (None, "fail", "error", "skip", "skip_sub", "assertion_sub"):
+        for other in (None, ("skip", "tearDown_post"), ("error", "tearDown_post"), ("fail", "cleanup"), ("xfail", "cleanup"), ("skip", "cleanup")):
+            for custom_skip in (False, True):
+                prog = _blank(decor="expectedFailure", custom_skip=custom_skip)
+                prog["body"] = [{"a": "log", "i": next(ids)}] + (r(body) if body else [])
+                if other:
+                    _put(prog, ids, other[1], r(other[0]))
+                yield {"prog": prog, "flavour": "ext"}
+
+
 def subchecks(tier):
     q = tier == "quick"
     return [
@@ -134,4 +499,15 @@ def subchecks(tier):
         Sub("kind_x_stage_grid", run_case, enum=_enum(not q), enum_complete=True,
             note=("9 behaviours ^ 5 stages, extended recorder + (with expectThat) real TestResult" if not q
                   else "6 behaviours ^ 5 stages with <= 3 faulty stages")),
+        Sub("delayed_failure_sites", run_case, enum=_enum_delayed, enum_complete=True,
+            note="{expectThat mismatch, force_failure = True / 1 / 'yes'} x 5 sites (setUp, body, tearDown, cleanup, cleanup "
+                 "registered by a cleanup) x {nothing else, a skip / an expected failure in one of 5 stages}; force_failure as a "
+                 "class attribute; failureException of the project's own"),
+        Sub("handler_grid", run_case, enum=_enum_handlers, enum_complete=True,
+            note="10 (raised, handler class -> outcome, position) x 3 raising stages x 5 insertion times x 5 ways to choose the "
+                 "runner; two tests of one class with different handler tables"),
+        Sub("entry_points_and_decorated", run_case, enum=_enum_api, enum_complete=True,
+            note="skipTest()/fail() called in 4 stages x {stock, own} skip class (+ own failure class); unittest.SkipTest raised "
+                 "under an unrelated skipException x a later skip; subclasses of the xfail / unexpected-success signals alone and after "
+                 "a failure / an error; @expectedFailure x 6 bodies x 6 other stages x 2 skip classes"),
     ]
